@@ -117,6 +117,44 @@ def optimal(snap, point, tag):
     return z3.And(P(snap, point), z3.ForAll(qs, body) if qs else body)
 
 
+def optimal_expanded(snap, point, tag, student_vars):
+    """Same as optimal(), with the universally quantified matching variables
+    expanded over every 'each student takes at most one of its variables'
+    assignment (exact when P implies that shape - checked by the caller);
+    only auxiliary variables stay quantified."""
+    import itertools
+    fs = [P(snap, point)]
+    present = [[v for v in vs if id(v) in point.v] for vs in student_vars]
+    obj_pt = objective(snap, point)
+    for n, choice in enumerate(itertools.product(*[[None] + vs for vs in present])):
+        consts = {}
+        for vs, pick in zip(present, choice):
+            for v in vs:
+                consts[id(v)] = z3.IntVal(1 if v is pick else 0)
+        other = Point(snap, '%s_%d' % (tag, n), consts=consts)
+        aux = [c for vid, c in other.v.items() if vid not in consts]
+        body = z3.Implies(P(snap, other), objective(snap, other) <= obj_pt)
+        fs.append(z3.ForAll(aux, body) if aux else body)
+    return z3.And(fs)
+
+
+def forall(qs, body, qe_ms=4000):
+    """ForAll(qs, body), with the quantifier eliminated by z3's qe tactic when
+    that finishes within the budget (the result is then quantifier-free)."""
+    if not qs:
+        return body
+    f = z3.ForAll(qs, body)
+    if qe_ms:
+        g = z3.Goal()
+        g.add(f)
+        try:
+            r = z3.TryFor(z3.Tactic('qe'), qe_ms)(g)
+            return z3.And([sg.as_expr() for sg in r]) if len(r) else z3.BoolVal(True)
+        except z3.Z3Exception:
+            pass
+    return f
+
+
 def infeasible(snap, tag):
     other = Point(snap, tag)
     qs = other.consts()
